@@ -340,15 +340,26 @@ func RecordTokenization(duration time.Duration, querySize int, err error) {
 	// Record query size
 	atomic.AddInt64(&globalMetrics.totalQueryBytes, int64(querySize))
 
-	// Update min/max query sizes
-	currentMin := atomic.LoadInt64(&globalMetrics.minQuerySize)
-	if currentMin == -1 || int64(querySize) < currentMin {
-		atomic.StoreInt64(&globalMetrics.minQuerySize, int64(querySize))
+	// Update min/max query sizes. Compare-and-swap loops: with a plain load-compare-store a
+	// concurrent recording could overwrite a more extreme value stored in between.
+	for {
+		currentMin := atomic.LoadInt64(&globalMetrics.minQuerySize)
+		if currentMin != -1 && int64(querySize) >= currentMin {
+			break
+		}
+		if atomic.CompareAndSwapInt64(&globalMetrics.minQuerySize, currentMin, int64(querySize)) {
+			break
+		}
 	}
 
-	currentMax := atomic.LoadInt64(&globalMetrics.maxQuerySize)
-	if int64(querySize) > currentMax {
-		atomic.StoreInt64(&globalMetrics.maxQuerySize, int64(querySize))
+	for {
+		currentMax := atomic.LoadInt64(&globalMetrics.maxQuerySize)
+		if int64(querySize) <= currentMax {
+			break
+		}
+		if atomic.CompareAndSwapInt64(&globalMetrics.maxQuerySize, currentMax, int64(querySize)) {
+			break
+		}
 	}
 
 	// Record errors
